@@ -296,11 +296,16 @@ func (x *Exec) dispatch(s *State, e *ast.CallExpr, c callee, recv *Val, args []V
 			if r.callee == cname || (c.fn != nil && r.callee == objKey(c.fn)) {
 				top := x.eng.curTop
 				tx := &Exec{eng: x.eng, fn: top}
-				env := tx.specEnvAt(s, top.body.Lbrace+1)
-				for k, v := range top.specVars {
-					if _, shadow := env.vars[k]; !shadow {
-						_ = v
-					}
+				sp := top.body.Lbrace + 1
+				if x.fn == top {
+					sp = pos // locals visible at the call are visible to the rule
+				}
+				env := tx.specEnvAt(s, sp)
+				for i, a := range args {
+					env.vars["arg"+itoa(i)] = a
+				}
+				if recv != nil {
+					env.vars["argrecv"] = *recv
 				}
 				x.oblige(s, "callsite", pos, env.evalBool(r.req), "call of "+cname+" requires "+r.req.Src)
 			}
